@@ -90,15 +90,112 @@ def direction(spec, type_before):
 
 def conv_case(spec, tmpdir):
     """-> dict(lines=[(corr name, case line, impl line)], fails=[(key, observed, required)], info=Counter keys)"""
-    import t2data as T, t2grids as G
+    res = {'lines': [], 'fails': [], 'info': []}
+    dat, geo = M.build_conv(spec, tmpdir)
+    conv_step(dat, spec, tmpdir, res)
+    return res
+
+
+def seq_case(spec, tmpdir):
+    """several conversions, one after the other, on ONE object (each followed by write + read back): every clause is
+    evaluated again on an object that reached its state through earlier conversions and writes"""
+    res = {'lines': [], 'fails': [], 'info': []}
+    dat, geo = M.build_conv(spec, tmpdir)
+    for k, op in enumerate(spec['ops']):
+        ok = conv_step(dat, dict(spec, op=op, prep=spec['prep'] if k == 0 else 'used'), tmpdir, res)
+        res['info'].append('seq-step:%d' % k)
+        if not ok: break
+    return res
+
+
+MUTABLE_ATTRS = ('lineq', 'multi', 'solver', 'short_output', 'history_block', 'history_connection', 'history_generator', 'generatorlist',
+                 'generator', 'parameter', '_sections', 'incon', 'indom', 'selection', 'output_times', 'meshmaker')
+
+
+def raw_state(dat):
+    """the containers conversions write to, by value"""
+    so = dat.short_output
+    return repr((dat.simulator, dat.filename, list(dat._sections), sorted(dat.multi.items(), key=str), sorted(dat.lineq.items(), key=str),
+                 sorted(dat.solver.items(), key=str), [int(x) for x in dat.parameter['option']],
+                 [(k, [id(x) if not isinstance(x, (str, tuple)) else x for x in v] if isinstance(v, list) else v) for k, v in sorted(so.items())],
+                 [item_name(x) for x in dat.history_block], [con_name(x) for x in dat.history_connection], [item_name(x) for x in dat.history_generator],
+                 [(g.block, g.name, g.type) for g in dat.generatorlist], sorted(dat.generator),
+                 [(rt.name, rt.conductivity) for rt in dat.grid.rocktypelist]))
+
+
+def shared_state(models):
+    """mutable containers (or their list members) that two distinct live models hold in common"""
+    out = []
+    for i in range(len(models)):
+        for j in range(i + 1, len(models)):
+            x, y = models[i][1], models[j][1]
+            for a in MUTABLE_ATTRS:
+                u, v = getattr(x, a, None), getattr(y, a, None)
+                if u is v and isinstance(u, (dict, list)): out.append('%s.%s is %s.%s' % (models[i][0], a, models[j][0], a))
+            if x.parameter['option'] is y.parameter['option']: out.append("%s.parameter['option'] is %s's" % (models[i][0], models[j][0]))
+            for k in ('block', 'connection', 'generator'):
+                u, v = x.short_output.get(k), y.short_output.get(k)
+                if u is v and isinstance(u, list): out.append('%s.short_output[%r] is %s\'s' % (models[i][0], k, models[j][0]))
+            if {id(r) for r in x.grid.rocktypelist} & {id(r) for r in y.grid.rocktypelist}: out.append('%s and %s share a rock type object' % (models[i][0], models[j][0]))
+            if {id(g) for g in x.generatorlist} & {id(g) for g in y.generatorlist}: out.append('%s and %s share a generator object' % (models[i][0], models[j][0]))
+    return out
+
+
+def pair_case(spec, tmpdir):
+    """two models in one process: B0 (a twin of B) is converted first, then A, then A's containers are edited, then B.
+    Converting a model must not change another model, must not depend on what was converted (or edited) before, and
+    distinct models must not end up sharing mutable state."""
     res = {'lines': [], 'fails': [], 'info': []}
     fail = lambda key, obs, req: res['fails'].append((key, obs, req))
-    dat, geo = M.build_conv(spec, tmpdir)
+    sa, sb = spec['a'], spec['b']
+    mods = {}
+    try:
+        b0, _ = M.build_conv(sb, tmpdir); ab0 = M.Abstractor(b0); ab0.fields(b0)
+        a, _ = M.build_conv(sa, tmpdir); aa = M.Abstractor(a); aa.fields(a)
+        b, _ = M.build_conv(sb, tmpdir); abb = M.Abstractor(b); abb.fields(b)
+    except ValueError as e:
+        res['info'].append('skipped:' + str(e)[:40]); return res
+    def convert(dat, op):
+        try: run_op(dat, op); return None
+        except Exception as e: return type(e).__name__
+    r0 = convert(b0, sb['op'])
+    f0, s0 = (ab0.fields(b0), raw_state(b0)) if r0 is None else (None, None)
+    ra = convert(a, sa['op'])
+    if ra is None:                                   # the caller goes on editing the converted model A
+        for d in (a.lineq, a.multi, a.solver):
+            if d: d[next(iter(d))] = 7
+        if 'frequency' in a.short_output or a.short_output: a.short_output['frequency'] = 9
+        a.parameter['option'][21] = 3
+    fa, sa_state = (aa.fields(a), raw_state(a)) if ra is None else (None, None)
+    rb = convert(b, sb['op'])
+    res['info'] += ['pair:%s-then-%s' % (sa['op']['kind'], sb['op']['kind']), 'pair-raised:%s/%s/%s' % (r0, ra, rb)]
+    if r0 != rb: fail('conversion:result-depends-on-earlier-calls', 'twin models: first conversion %s, later conversion %s' % (r0 or 'completed', rb or 'completed'), 'the same outcome')
+    if r0 is None and rb is None:
+        fb = abb.fields(b)
+        if fb != f0:
+            fail('conversion:result-depends-on-earlier-calls', M.explain('\t'.join(['OK'] + f0), '\t'.join(['OK'] + fb))[:600],
+                 'a model converted after other models were converted and edited equals its twin converted before them')
+        if raw_state(b0) != s0 or ab0.fields(b0) != f0:
+            fail('conversion:changes-another-model', 'the twin converted first differs after the later conversions: %s' % M.explain('\t'.join(['OK'] + f0), '\t'.join(['OK'] + ab0.fields(b0)))[:500],
+                 'converting a model leaves every other model as it was')
+    if ra is None and (raw_state(a) != sa_state or aa.fields(a) != fa):
+        fail('conversion:changes-another-model', 'model A differs after model B was converted: %s' % M.explain('\t'.join(['OK'] + fa), '\t'.join(['OK'] + aa.fields(a)))[:500],
+             'converting a model leaves every other model as it was')
+    sh = shared_state([('B0', b0), ('A', a), ('B', b)])
+    if sh: fail('conversion:shared-mutable-state', '; '.join(sh[:6]), 'converted models do not share mutable containers')
+    return res
+
+
+def conv_step(dat, spec, tmpdir, res):
+    """one conversion of [dat] (spec['op']) with every clause of the statement and the file round trip; False when the
+    object cannot be used further"""
+    import t2data as T, t2grids as G
+    fail = lambda key, obs, req: res['fails'].append((key, obs, req))
     try:
         ab = M.Abstractor(dat)
         before = ab.fields(dat)
     except ValueError as e:
-        res['info'].append('skipped:' + str(e)[:40]); return res
+        res['info'].append('skipped:' + str(e)[:40]); return False
     op = spec['op']
     # hypothesis of the section-order theorems: the keywords up to SHORT are in reference order in the section list
     rank = {k: i for i, k in enumerate(M.SECTIONS)}
@@ -131,20 +228,20 @@ def conv_case(spec, tmpdir):
             fail('%s:raises-%s' % (site, type(raised).__name__), '%s: %s' % (type(raised).__name__, str(raised)[:200]),
                  'the conversion completes for every MOP digit / section combination')
         res['info'].append('raised:' + type(raised).__name__)
-        return res
+        return False
     if dirn == 'reject':
         fail('type-setter:accepts-unknown-type', 'no exception for type %r' % op['value'], 'an unsupported type name is refused')
     try:
         after = ab.fields(dat)
     except ValueError as e:
-        fail('%s:object-outside-abstraction' % site, str(e)[:200], 'lists hold blocks / connections / generators / names only'); return res
+        fail('%s:object-outside-abstraction' % site, str(e)[:200], 'lists hold blocks / connections / generators / names only'); return False
     res['lines'].append(('convert', case, 'OK\t' + '\t'.join(after)))
     blocks = dat.grid.block
     # ---- the statement, on the implementation
     if grid_sig(dat) != gsig: fail(site + ':grid-changed', 'grid differs after the conversion', 'grid unchanged')
     if dirn == 'same':
         if after != before: fail('type-setter:same-type-changes-model', M.explain('\t'.join(['OK'] + before), '\t'.join(['OK'] + after)), 'no change')
-        return res
+        return True
     gl = dat.generatorlist
     if dirn == 'to_tough2':
         if dat.type != 'TOUGH2' or dat.simulator: fail(site + ':still-declares-AUTOUGH2', 'type %s simulator %r' % (dat.type, dat.simulator), 'type TOUGH2')
@@ -248,7 +345,7 @@ def conv_case(spec, tmpdir):
         with M.quiet(): d2 = T.t2data(path)
     except Exception as e:
         fail(site + ':roundtrip-raises-' + type(e).__name__, '%s: %s' % (type(e).__name__, str(e)[:200]), 'the converted model can be written and read back')
-        res['info'].append('roundtrip-raised'); return res
+        res['info'].append('roundtrip-raised'); return False
     res['lines'].append(('written-sections', '\t'.join(['ws', '0', M.hx(''), M.hx('')] + after), after_ws))
     banned = ['SIMUL', 'LINEQ', 'SHORT'] if dirn == 'to_tough2' else ['SOLVR', 'FOFT', 'COFT', 'GOFT']
     left = [k for k in banned if k in secs]
@@ -288,7 +385,7 @@ def conv_case(spec, tmpdir):
     if (d2.lineq.get('type') if d2.lineq else None) != (dat.lineq.get('type') if dat.lineq else None): fail(site + ':roundtrip-lineq', repr(d2.lineq), repr(dat.lineq))
     if ('eos' in d2.multi and d2.multi['eos'] or None) != ('eos' in dat.multi and dat.multi['eos'] or None) and dat.multi.get('eos', '').strip() != (d2.multi.get('eos') or '').strip():
         fail(site + ':roundtrip-multi-eos', repr(d2.multi.get('eos')), repr(dat.multi.get('eos')))
-    return res
+    return True
 
 
 # ---------------------------------------------------------------------------------------------- export case (worker side)
@@ -321,6 +418,28 @@ def export_case(spec):
     res['lines'].append(('block-order', '\t'.join(M.geom_wire(geo)), 'OK\t' + ','.join(M.hx(n) for n in geo.block_name_list)))
     res['info'] += ['route:' + spec['route'], 'json:' + ('ok' if out['full'] else 'raised'), 'atm:%d' % spec['geo']['atmos_type'],
                     'order:%s' % spec['geo']['block_order']]
+    # ---- the export does not depend on earlier calls and hands out nothing it keeps: wreck the first result, call again
+    if out['full']:
+        import copy
+        canon = lambda j: json.dumps(j, sort_keys=True, default=lambda v: v.tolist() if hasattr(v, 'tolist') else str(v))
+        first = canon(out['json'])
+        state0 = raw_state(dat)
+        def wreck(v):
+            if isinstance(v, dict):
+                for x in list(v.values()): wreck(x)
+                v.clear()
+            elif isinstance(v, list):
+                for x in v: wreck(x)
+                del v[:]
+        wreck(out['json'])
+        try:
+            with M.quiet(): again = canon(dat.json(geo, 'mesh.exo', **kw))
+        except Exception as e: again = 'RAISE %s: %s' % (type(e).__name__, str(e)[:100])
+        if again != first:
+            k = next((i for i in range(min(len(first), len(again))) if first[i] != again[i]), 0)
+            fail('json:result-depends-on-earlier-calls', 'second call differs near ...%s' % again[max(0, k - 60):k + 60], 'the same export: ...%s' % first[max(0, k - 60):k + 60])
+        if raw_state(dat) != state0: fail('json:changes-the-model', 'the model differs after json()', 'the export leaves the model as it was')
+        res['info'].append('json-twice')
     # ---- the export as a whole: a boundary block none of whose neighbours is an interior block has no faces
     #      (an IndexError elsewhere in boundaries_json, e.g. default_incons shorter than the EOS needs, is the caller's)
     if not out['full'] and out.get('json_where') == 'boundaries_json' and out.get('json_exc') == 'IndexError' and 'normals' in out.get('json_line', ''):
@@ -418,6 +537,11 @@ def export_case(spec):
 
 
 # ---------------------------------------------------------------------------------------------- sharded execution
+def run_one(spec, tmp):
+    k = spec['kind']
+    return conv_case(spec, tmp) if k == 'conv' else seq_case(spec, tmp) if k == 'seq' else pair_case(spec, tmp) if k == 'pair' else export_case(spec)
+
+
 def _worker(args):
     kind, specs, repo = args
     if sys.path[0] != repo: sys.path.insert(0, repo)
@@ -426,7 +550,7 @@ def _worker(args):
     try:
         for spec in specs:
             try:
-                r = conv_case(spec, tmp) if kind == 'conv' else export_case(spec)
+                r = run_one(spec, tmp)
             except Exception as e:
                 r = {'lines': [], 'fails': [], 'info': ['harness-error'], 'crash': '%s\n%s' % (repr(e), traceback.format_exc()[-1500:])}
             out.append(r)
@@ -500,6 +624,42 @@ def conv_specs(ctx, n, offset=0):
     return [M.gen_conv_spec(ctx.rng, i + offset) for i in range(n)]
 
 
+REVERSE = {'t2': lambda rng: {'kind': 'au', 'MP': rng.random() < 0.3, 'simulator': rng.choice(['AUTOUGH2.2', 'AUTOUGH2', 'MULKOM']), 'eos': rng.choice(['EW', 'EWC'])},
+           'au': lambda rng: {'kind': 't2', 'MP': rng.random() < 0.3}}
+
+
+def seq_specs(ctx, n, offset=0):
+    """a model, then 2..3 conversions in alternating directions (or through the type setter) on the same object"""
+    out, i = [], 0
+    while len(out) < n:
+        s = M.gen_conv_spec(ctx.rng, i + offset); i += 1
+        op = s['op']
+        if op['kind'] == 'st':
+            if op['value'] not in ('TOUGH2', 'AUTOUGH2'): continue
+            ops = [op, {'kind': 'st', 'value': 'TOUGH2' if op['value'] == 'AUTOUGH2' else 'AUTOUGH2'}, dict(op)]
+        else:
+            second = REVERSE[op['kind']](ctx.rng)
+            ops = [op, second] + ([REVERSE[second['kind']](ctx.rng)] if ctx.rng.random() < 0.5 else [])
+        s['kind'], s['ops'] = 'seq', ops
+        out.append(s)
+    return out
+
+
+def pair_specs(ctx, n, offset=0):
+    """two models converted in one process (B has a twin converted first); biased to conversions to AUTOUGH2 whose solver
+    choices map to different LINEQ types, incl. MOP(21) in 7..9, and to pairs of the same direction"""
+    out = []
+    for i in range(n):
+        a, b = M.gen_conv_spec(ctx.rng, 2 * i + offset), M.gen_conv_spec(ctx.rng, 2 * i + 1 + offset)
+        if ctx.rng.random() < 0.6:
+            for s, d in ((a, ctx.rng.choice([3, 4, 6])), (b, ctx.rng.choice([5, 7, 8, 9, 2]))):
+                s.update({'flavour': 'TOUGH2', 'simulator': '', 'solver': None if ctx.rng.random() < 0.7 else {'type': d, 'z_precond': 'Z1', 'o_precond': 'O0', 'relative_max_iterations': 0.1, 'closure': 1e-6}})
+                s['options'][20] = d
+                s['op'] = {'kind': 'au', 'MP': False, 'simulator': 'AUTOUGH2.2', 'eos': 'EW'} if ctx.rng.random() < 0.7 else {'kind': 'st', 'value': 'AUTOUGH2'}
+        out.append({'kind': 'pair', 'a': a, 'b': b})
+    return out
+
+
 def export_specs(ctx, n, offset=0):
     return [M.gen_export_spec(ctx.rng, i + offset) for i in range(n)]
 
@@ -526,6 +686,9 @@ def run(ctx):
                 'convert_to_TOUGH2(MP), convert_to_AUTOUGH2(MP, simulator, eos) or the type setter, then write() + read(). (2) export cases: atmosphere type x block '
                 'order x EOS route (explicit, MULTI, simulator string, index, none) x EOS name (6 supported, 2 unsupported), boundary blocks of volume 0 / 1e25 / 1e30 / '
                 '1e50 inside and outside the geometry, 0..6 generators over the exported types incl. TMAK groups and atmosphere / unknown blocks. '
+                '(3) sequences: 2..3 conversions in alternating directions (or through the type setter) on ONE object, each with all clauses and write() + read(). '
+                '(4) pairs: two models in one process - a twin of B is converted first, then A, then the caller edits A, then B: B equals its twin, neither A nor the twin '
+                'changed, no mutable container shared. (5) every completed json() is called a second time after its first result was emptied in place. '
                 'A case is distinct by its full JSON spec; non-trivial: it was representable in the abstract object and ran')
     ctx.trusted += ['Coq 8.16.1 kernel (coqc); vm_compute for the finite obligations over the regenerated tables and for the MOP digit sweep',
                     'translator tools/props/c20_tables.py (ast walk of t2data.py; program language coq/C20/Lang.v with interpreter Convert.run_prog)',
@@ -550,11 +713,17 @@ def run(ctx):
     info_c = absorb(ctx, exe, 'conv', specs, run_cases(ctx, 'conv', specs))
     ctx.log('conversion cases: %d in %.1fs' % (nconv, time.time() - t0))
     t0 = time.time()
+    nseq, npair = (2400, 2400) if ctx.thorough else (300, 360)
+    qspecs, pspecs = seq_specs(ctx, nseq), pair_specs(ctx, npair)
+    info_q = absorb(ctx, exe, 'seq', qspecs, run_cases(ctx, 'seq', qspecs))
+    info_p = absorb(ctx, exe, 'pair', pspecs, run_cases(ctx, 'pair', pspecs))
+    ctx.log('sequences on one object: %d, pairs of models in one process: %d in %.1fs' % (nseq, npair, time.time() - t0))
+    t0 = time.time()
     xspecs = export_specs(ctx, nexp)
     info_x = absorb(ctx, exe, 'export', xspecs, run_cases(ctx, 'export', xspecs))
     ctx.log('export cases: %d in %.1fs' % (nexp, time.time() - t0))
     for s in specs[:3] + xspecs[:3]: ctx.sample(json.dumps(s, sort_keys=True, default=str)[:600])
-    ctx.extra['input_distribution'] = {'conversion': dict(info_c), 'export': dict(info_x)}
+    ctx.extra['input_distribution'] = {'conversion': dict(info_c), 'sequences': dict(info_q), 'pairs': dict(info_p), 'export': dict(info_x)}
     ctx.hyp_met['conversion completed (Ok) on the implementation'] = sum(v for k, v in info_c.items() if k.startswith('dir:')) - sum(v for k, v in info_c.items() if k.startswith('raised:'))
     ctx.hyp_met['EOS recognised, by route'] = {k[13:]: v for k, v in info_x.items() if k.startswith('eos-detected:')}
 
@@ -565,6 +734,9 @@ def run(ctx):
         absorb(ctx, None, 'conv', sp, run_cases(ctx, 'conv', sp), label='(deep)')
         xp = export_specs(ctx, 1296, offset=5)
         absorb(ctx, None, 'export', xp, run_cases(ctx, 'export', xp), label='(deep)')
+        qp, pp = seq_specs(ctx, 600, offset=11), pair_specs(ctx, 900, offset=13)
+        absorb(ctx, None, 'seq', qp, run_cases(ctx, 'seq', qp), label='(deep)')
+        absorb(ctx, None, 'pair', pp, run_cases(ctx, 'pair', pp), label='(deep)')
     return ctx.finish(deep_search=deep)
 
 
@@ -574,7 +746,7 @@ def replay(ctx, data):
     key = data.get('finding_key')
     tmp = tempfile.mkdtemp(prefix='c20-replay-')
     try:
-        r = conv_case(spec, tmp) if spec['kind'] == 'conv' else export_case(spec)
+        r = run_one(spec, tmp)
     finally:
         shutil.rmtree(tmp, ignore_errors=True)
     for k, obs, req in r['fails']:
